@@ -54,6 +54,12 @@ func genC18(c *Chooser) *c18Graph {
 	if c.Weighted("world.big", 1, 5) {
 		n = 6 + c.Int("world.njobs2", 3)
 	}
+	huge := false
+	if c.Weighted("world.huge", 1, 25) {
+		// a large workflow (real ones have dozens of jobs)
+		n = []int{16, 17, 18, 24, 33, 40}[c.Int("world.njobs3", 6)]
+		huge = true
+	}
 	g := &c18Graph{}
 	order := make([]int, n)
 	for i := range order {
@@ -72,7 +78,12 @@ func genC18(c *Chooser) *c18Graph {
 		posOf[v] = i
 	}
 	names := c18Names
-	if c.Weighted("world.oddnames", 1, 10) {
+	if huge {
+		names = make([]string, n)
+		for i := range names {
+			names[i] = fmt.Sprintf("j%d", i)
+		}
+	} else if c.Weighted("world.oddnames", 1, 10) {
 		names = make([]string, len(c18Names))
 		for i, n := range c18Names {
 			names[i] = c18Odd[n]
@@ -117,7 +128,11 @@ func genC18(c *Chooser) *c18Graph {
 			if w == v && p > 0 && shape != 6 {
 				p = 1 // self loops rarer
 			}
-			if p > 0 && c.Weighted("world.edge", p, 12) {
+			den := 12
+			if huge && (shape == 0 || shape == 1 || shape == 5) {
+				den = 60 // keep large random graphs sparse
+			}
+			if p > 0 && c.Weighted("world.edge", p, den) {
 				job.Needs = append(job.Needs, c18Case(c, names[w]))
 				if c.Weighted("world.dupedge", 1, 16) {
 					job.Needs = append(job.Needs, c18Case(c, names[w]))
